@@ -123,7 +123,18 @@ pub fn plan_run(verif_seed: u64, run_index: u64, lim: &Limits) -> Plan {
     // medium-size one whose ops are all of that kind, to measure a catch rate per run
     let focus: Option<OpKind> = std::env::var("VERIF_DEV_FOCUS").ok().and_then(|s| OpKind::from_name(&s));
     let medium = !big && lim.max_n >= 200 && (rng_bb.chance(0.07) || focus.is_some());
-    let glim = if medium {
+    // large 1D / 2D inputs are cheap (a cell costs microseconds) and thresholds of a changed tree ("from 1024
+    // generators on", chunk lengths derived from n and the pool width) are only reachable cheaply there
+    let lowdim = !big && !medium && lim.max_n >= 200 && rng_bb.chance(0.04);
+    let glim = if lowdim {
+        let n = 1024 + rng_bb.below(5000) as usize;
+        GenLimits {
+            max_n: n,
+            min_n: n * 3 / 4,
+            max_n_3d: 450,
+            dim_weights: [1, 1, 0],
+        }
+    } else if medium {
         let n = 200 + rng_bb.below(700) as usize;
         GenLimits {
             max_n: n,
@@ -153,6 +164,9 @@ pub fn plan_run(verif_seed: u64, run_index: u64, lim: &Limits) -> Plan {
     if medium {
         case.family = format!("medium:{}", case.family);
     }
+    if lowdim {
+        case.family = format!("lowdim:{}", case.family);
+    }
     // pools: small ones are cheap and already reach every ordering of few
     // leaves; big ones exercise deep splitting
     let sizes: Vec<usize> = POOL_SIZES.iter().copied().filter(|&k| k <= lim.max_pool).collect();
@@ -177,7 +191,7 @@ pub fn plan_run(verif_seed: u64, run_index: u64, lim: &Limits) -> Plan {
     // Thresholds of a changed tree are typically joint ones - "this many cells per worker of a pool at least
     // that wide" - so large inputs have to meet wide pools often, not with the product of two small
     // probabilities: half of the large and a third of the medium-size runs get a wide first pool.
-    if (big && rng_bb.chance(0.5)) || (medium && rng_bb.chance(0.33)) {
+    if (big && rng_bb.chance(0.5)) || (medium && rng_bb.chance(0.33)) || (lowdim && rng_bb.chance(0.6)) {
         let wide: Vec<usize> = sizes.iter().copied().filter(|&k| k >= 16).collect();
         if !wide.is_empty() {
             pool_sizes[0] = *rng_bb.pick(&wide);
@@ -201,7 +215,7 @@ pub fn plan_run(verif_seed: u64, run_index: u64, lim: &Limits) -> Plan {
     // same process are what is checked (state left behind by a call that unwound).
     {
         let mut ri = Rng::new(mix(verif_seed, run_index, 0x1BAD));
-        if !big && !medium && ri.chance(0.08) {
+        if !big && !medium && !lowdim && ri.chance(0.08) {
             let b = ri.below(cases.len() as u64) as usize;
             let v = vcore::case::derive_invalid(&mut ri, &cases[b]);
             cases.push(v);
@@ -210,7 +224,7 @@ pub fn plan_run(verif_seed: u64, run_index: u64, lim: &Limits) -> Plan {
     let ncase = cases.len() as u64;
     let n_ops = if big {
         2
-    } else if medium {
+    } else if medium || lowdim {
         2 + rng.below(2) as usize
     } else {
         2 + rng.below(5) as usize
@@ -239,7 +253,7 @@ pub fn plan_run(verif_seed: u64, run_index: u64, lim: &Limits) -> Plan {
             split,
             sched,
             hooks: lim.allow_hooks && rng.chance(0.6),
-            bb: lim.allow_hooks && rng_bb.chance(if big { 0.2 } else if fav_bb || medium { 0.8 } else { 0.15 }),
+            bb: lim.allow_hooks && rng_bb.chance(if big || lowdim { 0.2 } else if fav_bb || medium { 0.8 } else { 0.15 }),
             fault: if rng_bb.chance(0.07) { Some((rng_bb.below(1 << 20) as u32, rng_bb.below(12) as u32)) } else { None },
             case,
             with,
@@ -531,6 +545,8 @@ pub static T_SIM: std::sync::atomic::AtomicU64 = std::sync::atomic::AtomicU64::n
 
 /// Runs not simulated because the sequential build of a large input panics on its own (see `run_plan`).
 pub static SKIPPED_LARGE_SEQ_PANIC: std::sync::atomic::AtomicU64 = std::sync::atomic::AtomicU64::new(0);
+/// Runs not simulated because a reference exceeded the work budget.
+pub static SKIPPED_TOO_EXPENSIVE: std::sync::atomic::AtomicU64 = std::sync::atomic::AtomicU64::new(0);
 
 /// Above this many generators an input whose sequential build panics by itself is not simulated.
 pub const LARGE_N: usize = 200;
@@ -546,6 +562,11 @@ pub fn run_plan(plan: &Plan, replay: Option<Vec<u32>>, watchdog_s: u64, check_re
     // bounded by the cost of the reference, and for a large degenerate input (exact predicates on
     // ~1000 co-spherical generators) it is CPU-hours, which a time limit would then read as a hang.
     // Such runs are not simulated (counted); small inputs still are.
+    if refs.values().any(crate::over_budget) {
+        // a reference that was abandoned because it needs too much work (see `REFERENCE_WORK_BUDGET`)
+        SKIPPED_TOO_EXPENSIVE.fetch_add(1, std::sync::atomic::Ordering::Relaxed);
+        return (empty_result(), None);
+    }
     if refs.iter().any(|(k, o)| k.2.is_none() && plan.cases[k.0].gens.len() > LARGE_N && matches!(o, Outcome::Panic(_))) {
         SKIPPED_LARGE_SEQ_PANIC.fetch_add(1, std::sync::atomic::Ordering::Relaxed);
         return (empty_result(), None);
@@ -559,6 +580,7 @@ pub fn run_plan(plan: &Plan, replay: Option<Vec<u32>>, watchdog_s: u64, check_re
     if check_ref_repeat {
         let h0 = &plan.history[0];
         let k = (h0.case.min(last), h0.op, fault_of(plan, h0));
+        crate::reset_reference_work();
         let again = s_seq::run_op_f(&plan.cases[k.0], h0.op, k.2);
         if let Some((component, a, b)) = again.first_diff(&refs[&k]) {
             return (
